@@ -446,7 +446,7 @@ def check(run):
             it = Interp(prog)
             b = builder(it)
             if meth == 'load_address':
-                a = it.construct(prog.cls('Address'), [ListV([Sym('wc', ty='int', not_none=True, lo=-128, hi=127), Sym('hp', ty='bytes', n=32)], tup=True)], {})
+                a = it.construct(prog.cls('Address'), [ListV([Sym('wc', ty='int', not_none=True, lo=-128, hi=-1), Sym('hp', ty='bytes', n=32)], tup=True)], {})
                 call(it, b, 'store_address', a)
             else:
                 make(b)
